@@ -28,6 +28,7 @@ RULE = (
     "re-arms what was cancelled (C07), which gives the states on that branch one more admissible deadline origin: a "
     "firing must sit on t0+delay for the entry time or a rollback time t0, a second firing in one activation needs a "
     "rollback after the first, and a state that outlives its last admissible deadline must have fired at least once. "
+    'A delay key may list several candidates (guarded ones ahead of the drawn one): it is still one delayed transition - first enabled candidate, at most once per activation per key. '
     "Non-trivial = an external event or slow action overlaps a deadline, or a state is re-entered before an earlier "
     "activation's deadline; distinct = distinct (machine, history)."
 )
